@@ -7,8 +7,13 @@
 // capacity, source of the converting copy / move constructors).  Ops: assign a callable (rvalue / lvalue / via a
 // temporary wrapper; every size 1..Cap for Cap <= 16, a boundary set for 32 and 64; trivially copyable and
 // non-trivially copyable + lifetime-tracked callables), copy / move assignment, copy / move construction, assign
-// nullptr, member and free swap, self swap, self copy-assignment, converting copy / move from the smaller wrapper,
+// nullptr, member and free swap (entered with the stack shifted by op-dependent multiples of 32 bytes), self swap, self
+// copy-assignment, converting copy / move from the smaller wrapper,
 // default / nullptr construction, call through a non-const and a const wrapper.
+//
+// Three further configurations use an explicit Alignment template argument (32, 64, 128) and targets declared
+// alignas(32/64/128), trivially and non-trivially copyable: every constructor (value, copy, move) and every invocation
+// of such a target checks its own address against alignof(T) ("constructed or invoked at a misaligned address").
 //
 // Oracle after EVERY op, for every wrapper whose state the model specifies:
 //   * emptiness: operator bool, == nullptr, != nullptr (both argument orders) equal the std::function model;
@@ -129,6 +134,63 @@ struct FnN {
 };
 static_assert(sizeof(FnN<1>) == 1 && sizeof(FnN<9>) == 9 && !std::is_trivially_copyable_v<FnN<9>>);
 
+// ---- over-aligned callables for inplace_function<Sig, Cap, Alignment> with an explicit Alignment.  Every constructor
+// (value, copy, move) and every invocation checks `this` against alignof(T); a violation is latched and reported by
+// the harness as a failure of the in-flight case (no address ever reaches a detail string).  UBSan's alignment check
+// may abort first: every case runs inside a vf::Flight, so the abort is attributed to the case as well.
+bool g_misaligned = false;
+inline void check_aligned(void const* p, std::size_t a)
+{
+    if (reinterpret_cast<std::uintptr_t>(p) % a != 0) { g_misaligned = true; }
+}
+template <std::size_t N, std::size_t A>
+struct alignas(A) FnAT { // trivially copyable, over-aligned: checked on every call
+    Bytes<N> d;
+    auto operator()(int x) -> int
+    {
+        check_aligned(this, A);
+        return d.call(x);
+    }
+};
+template <std::size_t N, std::size_t A>
+struct alignas(A) FnAN { // non-trivially copyable, lifetime tracked, over-aligned
+    Bytes<N> d;
+    explicit FnAN(unsigned char st) noexcept
+    {
+        check_aligned(this, A);
+        d.init(st);
+        lt::on_construct(this);
+    }
+    FnAN(FnAN const& o) noexcept : d(o.d)
+    {
+        check_aligned(this, A);
+        lt::need_live(&o, "callable copy constructor reads a source that is not a live object");
+        lt::on_construct(this);
+        ++lt::reg().copies;
+    }
+    FnAN(FnAN&& o) noexcept : d(o.d)
+    {
+        check_aligned(this, A);
+        lt::need_live(&o, "callable move constructor reads a source that is not a live object");
+        lt::on_construct(this);
+        lt::mark_moved(&o);
+        o.d.b[0] = static_cast<unsigned char>(o.d.b[0] ^ 0x5AU);
+        ++lt::reg().moves;
+    }
+    auto operator=(FnAN const&) -> FnAN& = delete;
+    ~FnAN() noexcept { lt::on_destroy(this); }
+    auto operator()(int x) -> int
+    {
+        check_aligned(this, A);
+        lt::need_live(this, "target invoked on storage that holds no live callable");
+        return d.call(x);
+    }
+};
+static_assert(alignof(FnAT<1, 64>) == 64 && sizeof(FnAT<65, 64>) == 128 && alignof(FnAN<33, 32>) == 32 && sizeof(FnAN<33, 32>) == 64);
+
+template <std::size_t N, bool Tracked, std::size_t A>
+using Callable = std::conditional_t<(A <= 1), std::conditional_t<Tracked, FnN<N>, FnT<N>>, std::conditional_t<Tracked, FnAN<N, (A <= 1 ? 2 : A)>, FnAT<N, (A <= 1 ? 2 : A)>>>;
+
 // ------------------------------------------------------------------ configuration
 template <std::size_t... Ns>
 struct Sizes { };
@@ -173,10 +235,10 @@ auto do_call(char const* name, W& w, Model& m, int arg, bool through_const) -> s
     return "";
 }
 
-template <typename W, std::size_t N, bool Tracked>
+template <typename W, std::size_t N, bool Tracked, std::size_t A = 1>
 void assign_callable(W& w, unsigned char st, int how)
 {
-    using F = std::conditional_t<Tracked, FnN<N>, FnT<N>>;
+    using F = Callable<N, Tracked, A>;
     auto make = [&]() -> F {
         if constexpr (Tracked) {
             return F(st);
@@ -207,32 +269,61 @@ void assign_callable(W& w, unsigned char st, int how)
     }
 }
 
-template <std::size_t Cap, std::size_t SCap, typename SizeList>
+constexpr auto round_up(std::size_t n, std::size_t a) -> std::size_t { return (n + a - 1) / a * a; }
+
+// swap with the stack pointer shifted by a multiple of 32 bytes first: temporaries inside swap() then land on
+// different addresses modulo 64 / 128 / 256 from one call to the next
+template <typename W>
+[[gnu::noinline]] void swap_shifted(W& x, W& y, unsigned shift, bool free_function)
+{
+    auto* pad = static_cast<unsigned char volatile*>(__builtin_alloca(32U * (shift % 8U) + 32U));
+    pad[0]    = 1;
+    if (free_function) {
+        using etl::swap;
+        swap(x, y);
+    } else {
+        x.swap(y);
+    }
+    pad[1] = pad[0];
+}
+
+// Align == 0: default alignment, callables of sizes Ns with alignment 1.
+// Align  > 0: inplace_function<int(int), Cap, Align>; additionally callables declared alignas(Align) with payload sizes As
+//             (object size = As rounded up to Align).  The small wrapper keeps its default alignment.
+template <std::size_t Cap, std::size_t SCap, typename SizeList, std::size_t Align = 0, typename AlignedSizeList = Sizes<>>
 struct Cfg;
 
-template <std::size_t Cap, std::size_t SCap, std::size_t... Ns>
-struct Cfg<Cap, SCap, Sizes<Ns...>> {
-    using IF  = etl::inplace_function<int(int), Cap>;
+template <std::size_t Cap, std::size_t SCap, std::size_t... Ns, std::size_t Align, std::size_t... As>
+struct Cfg<Cap, SCap, Sizes<Ns...>, Align, Sizes<As...>> {
+    static constexpr std::size_t align_or_1 = Align == 0 ? 1 : Align;
+    using IF  = std::conditional_t<Align == 0, etl::inplace_function<int(int), Cap>, etl::inplace_function<int(int), Cap, align_or_1>>;
     using IFS = etl::inplace_function<int(int), SCap>;
     static_assert(((Ns <= Cap) && ...));
+    static_assert(((round_up(As, align_or_1) <= Cap) && ...));
+    static_assert(Align != 0 || sizeof...(As) == 0);
     static_assert(IF::capacity::value == Cap && IFS::capacity::value == SCap);
+    static_assert(Align == 0 || (IF::alignment::value == Align && alignof(IF) >= Align));
 
     using AssignBig   = void (*)(IF&, unsigned char, int);
     using AssignSmall = void (*)(IFS&, unsigned char, int);
-    static constexpr std::size_t sizes[]   = {Ns...};
-    static constexpr std::size_t nsizes    = sizeof...(Ns);
-    static constexpr AssignBig big_t[]     = {&assign_callable<IF, Ns, false>...};
-    static constexpr AssignBig big_n[]     = {&assign_callable<IF, Ns, true>...};
-    // for the small wrapper sizes above SCap are replaced by SCap (same table length keeps indices aligned)
-    static constexpr AssignSmall small_t[] = {&assign_callable<IFS, (Ns <= SCap ? Ns : SCap), false>...};
-    static constexpr AssignSmall small_n[] = {&assign_callable<IFS, (Ns <= SCap ? Ns : SCap), true>...};
+    static constexpr std::size_t sizes[]   = {Ns..., round_up(As, align_or_1)...};
+    static constexpr std::size_t nsizes    = sizeof...(Ns) + sizeof...(As);
+    static constexpr std::size_t nplain    = sizeof...(Ns);
+    static constexpr AssignBig big_t[]     = {&assign_callable<IF, Ns, false>..., &assign_callable<IF, As, false, align_or_1>...};
+    static constexpr AssignBig big_n[]     = {&assign_callable<IF, Ns, true>..., &assign_callable<IF, As, true, align_or_1>...};
+    // for the small wrapper sizes above SCap are replaced by SCap and over-aligned callables by plain ones (same
+    // table length keeps indices aligned)
+    static constexpr AssignSmall small_t[] = {&assign_callable<IFS, (Ns <= SCap ? Ns : SCap), false>..., &assign_callable<IFS, (As <= SCap ? As : SCap), false>...};
+    static constexpr AssignSmall small_n[] = {&assign_callable<IFS, (Ns <= SCap ? Ns : SCap), true>..., &assign_callable<IFS, (As <= SCap ? As : SCap), true>...};
 
     static auto run(OpsCase const& k, int stats) -> std::string
     {
         lt::reset();
         g_calls.clear();
+        g_misaligned = false;
         std::string err;
-        bool nt = false, seen_full_size = false, seen_tracked = false, seen_swap_nonempty = false, seen_convert = false, seen_call = false;
+        bool nt = false, seen_full_size = false, seen_tracked = false, seen_swap_nonempty = false, seen_convert = false, seen_call = false, seen_overaligned_swap = false;
+        bool seen_overaligned_assign = false;
         {
             struct Sandwich {
                 std::uint64_t pre{0xA5A5A5A5A5A5A5A5ULL};
@@ -305,6 +396,7 @@ struct Cfg<Cap, SCap, Sizes<Ns...>> {
                     mx.unspec = false;
                     reassigned(ix);
                     seen_full_size |= sizes[szi] == Cap;
+                    seen_overaligned_assign |= szi >= nplain;
                     seen_tracked |= trk;
                     break;
                 }
@@ -382,13 +474,9 @@ struct Cfg<Cap, SCap, Sizes<Ns...>> {
                 }
                 case SWAP_MEMBER:
                 case SWAP_FREE: {
-                    if (code == SWAP_MEMBER) {
-                        x.swap(y);
-                    } else {
-                        using etl::swap;
-                        swap(x, y);
-                    }
+                    swap_shifted(x, y, op.b, code == SWAP_FREE);
                     mx.m.swap(my.m);
+                    seen_overaligned_swap |= seen_overaligned_assign && (mx.m || my.m);
                     seen_swap_nonempty |= (mx.m || my.m);
                     // the NT bookkeeping follows the targets
                     auto sw_idx = [&](int& w) {
@@ -503,6 +591,7 @@ struct Cfg<Cap, SCap, Sizes<Ns...>> {
                 if (err.empty() && !sc.unspec) { err = emptiness("C", sw.c, sc.m); }
                 if (err.empty() && (sw.pre != 0xA5A5A5A5A5A5A5A5ULL || sw.mid != 0x5A5A5A5A5A5A5A5AULL || sw.mid2 != 0x3C3C3C3C3C3C3C3CULL || sw.post != 0xC3C3C3C3C3C3C3C3ULL)) { err = "canary next to a wrapper was overwritten"; }
                 if (err.empty() && !lt::violation().empty()) { err = "lifetime: " + lt::violation(); }
+                if (err.empty() && g_misaligned) { err = "a callable declared alignas(" + std::to_string(align_or_1) + ") was constructed or invoked at a misaligned address"; }
                 if (!err.empty()) {
                     err = std::string("after ") + code_names[code] + ": " + err;
                     break;
@@ -512,6 +601,7 @@ struct Cfg<Cap, SCap, Sizes<Ns...>> {
             if (err.empty() && !sa.unspec && sa.m) { err = do_call("final call of A", sw.a, sa.m, 7, false); }
             if (err.empty() && !sb.unspec && sb.m) { err = do_call("final call of B", sw.b, sb.m, 7, true); }
             if (err.empty() && !sc.unspec && sc.m) { err = do_call("final call of C", sw.c, sc.m, 7, false); }
+            if (err.empty() && g_misaligned) { err = "a callable declared alignas(" + std::to_string(align_or_1) + ") was constructed or invoked at a misaligned address"; }
             if (err.empty() && !lt::violation().empty()) { err = "lifetime: " + lt::violation(); }
         }
         if (err.empty()) { err = lt::check_empty(); }
@@ -522,6 +612,7 @@ struct Cfg<Cap, SCap, Sizes<Ns...>> {
             vf::label("ipf.hist.swap_with_a_target", seen_swap_nonempty);
             vf::label("ipf.hist.converting_copy_or_move_of_a_target", seen_convert);
             vf::label("ipf.hist.some_call", seen_call);
+            if (Align != 0) { vf::label("ipf.hist.swap_of_a_target_after_an_overaligned_assign", seen_overaligned_swap); }
         }
         if (stats > 0 && nt) { vf::nontrivial(vf::digest(k)); }
         return err;
@@ -546,7 +637,12 @@ Config const configs[] = {
     {"inplace_function<int(int),16> (+small 8)", &Cfg<16, 8, AllSizes<16>>::run},
     {"inplace_function<int(int),32> (+small 16)", &Cfg<32, 16, Sizes<1, 2, 3, 4, 7, 8, 9, 15, 16, 17, 24, 31, 32>>::run},
     {"inplace_function<int(int),64> (+small 8)", &Cfg<64, 8, Sizes<1, 5, 8, 13, 21, 33, 34, 55, 63, 64>>::run},
+    // explicit over-alignment (template parameter Alignment): alignas(32) / alignas(64) / alignas(128) targets
+    {"inplace_function<int(int),64,32> (+small 16)", &Cfg<64, 16, Sizes<1, 16, 40>, 32, Sizes<1, 32, 33, 64>>::run},
+    {"inplace_function<int(int),128,64> (+small 16)", &Cfg<128, 16, Sizes<1, 24>, 64, Sizes<1, 64, 65, 128>>::run},
+    {"inplace_function<int(int),128,128> (+small 16)", &Cfg<128, 16, Sizes<8>, 128, Sizes<1, 100, 128>>::run},
 };
+constexpr std::uint32_t first_overaligned_config = 5;
 constexpr std::uint32_t nconfigs = sizeof(configs) / sizeof(configs[0]);
 
 auto run_case(OpsCase const& k, int stats) -> std::string
@@ -582,6 +678,26 @@ void vf_run(vf::Ctx& c)
             auto d = run_case(k, 1);
             if (!d.empty()) { vf::mismatch("enum_histories", k, d); }
         });
+    }
+    // E2 for the over-aligned configurations: every history of depth 3 over a smaller alphabet (assign an over-aligned /
+    // a plain callable, copy, move, nullptr, swaps with four stack shifts, self swap, calls)
+    {
+        std::vector<RawOp> alpha;
+        for (std::uint32_t code : {ASSIGN_RVALUE, ASSIGN_LVALUE, COPY_ASSIGN, MOVE_ASSIGN, COPY_CTOR, MOVE_CTOR, ASSIGN_NULLPTR, CALL, SELF_SWAP}) {
+            alpha.push_back(RawOp{code, 3, 17, 2}); // largest over-aligned size, tracked, target A
+            alpha.push_back(RawOp{code, 0, 200, 1}); // plain size, trivial, target B
+        }
+        for (std::uint32_t code : {SWAP_MEMBER, SWAP_FREE}) {
+            for (std::uint32_t shift = 0; shift < 4; ++shift) { alpha.push_back(RawOp{code, 0, shift, shift & 1U}); }
+        }
+        for (std::uint32_t ci = first_overaligned_config; ci < nconfigs; ++ci) {
+            vf::enum_histories(ci, alpha, 3, [&](OpsCase const& k) {
+                vf::Flight<OpsCase> fl("enum_histories", k);
+                vf::eval("enum_histories");
+                auto d = run_case(k, 1);
+                if (!d.empty()) { vf::mismatch("enum_histories", k, d); }
+            });
+        }
     }
     // E1: random histories, every configuration
     int per_cfg = c.thorough() ? 12000 : 1500;
